@@ -187,6 +187,7 @@ impl TrackState {
         self.foreign = false;
         self.foreign_serials.clear();
         self.as_mut_by_serial.clear();
+        keys_reset();
     }
 }
 
@@ -348,6 +349,69 @@ impl MemBuilder for TrackGreedy {
 }
 impl MemBuilderSizeable for TrackGreedy {
     fn build_with_size(&mut self, element_layout: Layout, capacity: usize) -> TrackMem { let mut m = TrackMem::build(element_layout, capacity, false); m.greedy = true; m }
+}
+
+// ---------------------------------------------------------------------------------------------------------------------------
+// TrackKey: a user backend that exercises the rest of the storage traits. Its builder is STATEFUL (an identity; `Clone` makes a new
+// identity, so a bitwise duplicate is recognisable), a plainly built Mem is warm (room for 3), the Mem supports raw parts with a
+// Handle that is NOT a pointer (a ticket), and the Mem is only a KEY to its state: once `into_raw_parts` has consumed it, a stale
+// bitwise copy of it reports size 0 and the layout of `()` (nothing may ask a consumed Mem).
+#[derive(Default)]
+pub struct KeyState { next_builder: u32, released: Vec<u32>, pub builder_of_serial: Vec<(u32, u32)> }
+thread_local! { pub static KEYS: RefCell<KeyState> = RefCell::new(KeyState::default()); }
+pub fn keys_reset() { KEYS.with(|k| *k.borrow_mut() = KeyState::default()); }
+/// the identity of the builder that built storage `serial` (None: not a TrackKey storage)
+pub fn builder_of(serial: u32) -> Option<u32> { KEYS.with(|k| k.borrow().builder_of_serial.iter().find(|(s, _)| *s == serial).map(|(_, b)| *b)) }
+fn new_builder_id() -> u32 { let _w = WindowOff::new(); KEYS.with(|k| { let mut k = k.borrow_mut(); k.next_builder += 1; k.next_builder }) }
+
+#[derive(Debug)]
+pub struct TrackKey { pub id: u32 }
+impl Default for TrackKey { fn default() -> Self { TrackKey { id: new_builder_id() } } }
+impl Clone for TrackKey { fn clone(&self) -> Self { TrackKey { id: new_builder_id() } } }
+pub struct TrackKeyMem { inner: TrackMem }
+impl TrackKeyMem {
+    fn new(builder: u32, layout: Layout, cap: usize) -> Self {
+        let inner = TrackMem::build(layout, cap, false);
+        let _w = WindowOff::new();
+        KEYS.with(|k| k.borrow_mut().builder_of_serial.push((inner.serial, builder)));
+        TrackKeyMem { inner }
+    }
+    fn released(&self) -> bool { let _w = WindowOff::new(); KEYS.with(|k| k.borrow().released.contains(&self.inner.serial)) }
+}
+impl MemBuilder for TrackKey {
+    type Mem = TrackKeyMem;
+    fn build(&mut self, element_layout: Layout) -> TrackKeyMem { TrackKeyMem::new(self.id, element_layout, WARM) }
+}
+impl MemBuilderSizeable for TrackKey {
+    fn build_with_size(&mut self, element_layout: Layout, capacity: usize) -> TrackKeyMem { TrackKeyMem::new(self.id, element_layout, capacity) }
+}
+impl Mem for TrackKeyMem {
+    #[inline] fn as_ptr(&self) -> *const u8 { self.inner.as_ptr() }
+    #[inline] fn as_mut_ptr(&mut self) -> *mut u8 { self.inner.as_mut_ptr() }
+    fn element_layout(&self) -> Layout { if self.released() { Layout::new::<()>() } else { self.inner.element_layout() } }
+    fn size(&self) -> usize { if self.released() { 0 } else { self.inner.size() } }
+    fn expand(&mut self, additional: usize) { self.inner.expand(additional) }
+}
+impl MemResizable for TrackKeyMem {
+    fn expand_exact(&mut self, additional: usize) { self.inner.expand_exact(additional) }
+    fn resize(&mut self, new_size: usize) { self.inner.resize(new_size) }
+}
+/// not a pointer: the storage's serial plus what is needed to pick it up again
+#[derive(Clone, Debug)]
+pub struct KeyTicket { serial: u32, ptr: usize, fence: u8 }
+impl any_vec::mem::MemRawParts for TrackKeyMem {
+    type Handle = KeyTicket;
+    fn into_raw_parts(self) -> (KeyTicket, Layout, usize) {
+        let (layout, size) = (self.inner.layout, self.inner.cap);
+        let t = KeyTicket { serial: self.inner.serial, ptr: self.inner.ptr as usize, fence: self.inner.fence };
+        { let _w = WindowOff::new(); KEYS.with(|k| k.borrow_mut().released.push(t.serial)); }
+        std::mem::forget(self); // no Drop event: the storage lives on behind the ticket
+        (t, layout, size)
+    }
+    unsafe fn from_raw_parts(handle: KeyTicket, element_layout: Layout, size: usize) -> Self {
+        { let _w = WindowOff::new(); KEYS.with(|k| k.borrow_mut().released.retain(|s| *s != handle.serial)); }
+        TrackKeyMem { inner: TrackMem { ptr: handle.ptr as *mut u8, cap: size, layout: element_layout, serial: handle.serial, fixed: false, fence: handle.fence, tight: false, greedy: false } }
+    }
 }
 
 /// Fixed-capacity (N elements), instrumented backend: `TrackFixedMem` is deliberately a distinct type that
